@@ -16,13 +16,13 @@ import (
 // the current endpoint per address, the reachability matrix and the seeded
 // per-message fault plan.
 type Net struct {
-	w   *World
-	mu  sync.Mutex
-	eps map[raft.ServerAddress]*Trans
-	cut map[[2]string]bool // directed: from -> to unreachable
+	w    *World
+	mu   sync.Mutex
+	eps  map[raft.ServerAddress]*Trans
+	cut  map[[2]string]bool          // directed: from -> to unreachable
 	slow map[[2]string]time.Duration // directed: requests from -> to are delivered this much later
-	rng *rand.Rand
-	ids uint64
+	rng  *rand.Rand
+	ids  uint64
 
 	DropP, RespDropP, DelayP, DupP float64
 	MaxDelay                       time.Duration
